@@ -61,7 +61,20 @@ type C10Case struct {
 // handlerClient lets a real client talk to a real handler in process.
 type handlerClient struct{ h http.Handler }
 
-func (c handlerClient) Do(req *http.Request) (*http.Response, error) {
+func (c handlerClient) Do(req *http.Request) (resp *http.Response, err error) {
+	// a request no server could receive (not an http URL, a target that is not a request-target) fails like a transport would
+	// (and, like every RoundTripper, closes the request body whatever happens)
+	defer func() {
+		if e := recover(); e != nil {
+			resp, err = nil, fmt.Errorf("transport: cannot send %s %s: %v", req.Method, req.URL, e)
+		}
+		if err != nil && req.Body != nil {
+			req.Body.Close()
+		}
+	}()
+	if req.URL.Scheme != "http" && req.URL.Scheme != "https" {
+		return nil, fmt.Errorf("transport: unsupported protocol scheme %q", req.URL.Scheme)
+	}
 	var body io.Reader = http.NoBody
 	if req.Body != nil {
 		b, _ := io.ReadAll(req.Body)
@@ -73,7 +86,7 @@ func (c handlerClient) Do(req *http.Request) (*http.Response, error) {
 	sreq = sreq.WithContext(req.Context())
 	rw := httptest.NewRecorder()
 	c.h.ServeHTTP(rw, sreq)
-	resp := rw.Result()
+	resp = rw.Result()
 	resp.Request = req
 	return resp, nil
 }
@@ -151,8 +164,9 @@ func (c c10conc) maxTok(v int64) int {
 	return -1
 }
 
-var supCal = map[string][]string{"none": {"VJOURNAL"}, "one": {"VEVENT"}, "two": {"VEVENT", "VTODO"}}
-var supCard = map[string][]carddav.AddressDataType{"none": {{ContentType: "text/x-vcard", Version: "2.1"}}, "one": {{ContentType: "text/vcard", Version: "3.0"}},
+// "empty": a set that is present but empty (not nil: nil means "the default", which the server announces as VEVENT)
+var supCal = map[string][]string{"empty": {}, "none": {"VJOURNAL"}, "one": {"VEVENT"}, "two": {"VEVENT", "VTODO"}}
+var supCard = map[string][]carddav.AddressDataType{"empty": {}, "none": {{ContentType: "text/x-vcard", Version: "2.1"}}, "one": {{ContentType: "text/vcard", Version: "3.0"}},
 	"two": {{ContentType: "text/vcard", Version: "3.0"}, {ContentType: "text/vcard", Version: "4.0"}}}
 
 func supCalTok(l []string) string {
